@@ -220,6 +220,12 @@ def run(ctx):
             for filt in filters:
                 jobs.append((fid, path, journald, mode, filt, lines, trigger))
 
+    from . import race
+    rb = race.build(ctx)
+    rl = race.logdir(ctx, "aa-log")
+    n_race = 90 if ctx.tier == "quick" else 1500
+    race_ids = {id(j) for j in jobs[:n_race]}
+
     def runone(j):
         fid, path, journald, mode, filt, lines, trigger = j
         cmd = [aalog]
@@ -245,6 +251,15 @@ def run(ctx):
                 res.append((p.returncode, p.stdout, p.stderr))
             except subprocess.TimeoutExpired:
                 res.append((None, b"", b"timeout"))
+        if id(j) in race_ids and res[0][0] == 0:
+            # the same run on the binary built with the race detector: same output, no report
+            try:
+                p = subprocess.run([os.path.join(rb, "aa-log")] + cmd[1:], stdout=subprocess.PIPE, stderr=subprocess.PIPE, timeout=600,
+                                   env=dict(os.environ, GORACE=race.gorace(rl)))
+                if p.returncode != 0 or p.stdout != res[0][1]:
+                    res[1] = (p.returncode, p.stdout, p.stderr)       # reported below as a run that differs from the first
+            except subprocess.TimeoutExpired:
+                pass
         return j, res
 
     agg = {}
@@ -252,7 +267,9 @@ def run(ctx):
     def viol(key, what, case):
         agg.setdefault(key, []).append((what, case))
 
-    for j, res in pmap(runone, jobs):
+    results = pmap(runone, jobs)
+    race.judge(ctx, "C14", rl, "aa-log, %d runs" % min(n_race, len(jobs)), min(n_race, len(jobs)))
+    for j, res in results:
         fid, path, journald, mode, filt, lines, trigger = j
         has_rep = any(isinstance(l, dict) and "repeat_of" in l for l in lines)
         optional = {l["tag"] for l in lines if isinstance(l, dict) and l.get("optional")}
